@@ -670,3 +670,11 @@ mutant('WHO-worker-advances-commit-cursor', ['C02'], [
 mutant('WHO-next-clears-tx-results', ['C02'], [
     (S, "                        tx.status = TransactionStatus::Validating;\n                        return Some(Task::Validation(TxVersion::new(\n                            validation_idx,", "                        tx.status = TransactionStatus::Validating;\n                        if tx.incarnation > 1_000_000 {\n                            let _ = self.tx_results[validation_idx].lock().take();\n                        }\n                        return Some(Task::Validation(TxVersion::new(\n                            validation_idx,"),
 ], ['|WHO|'])
+
+mutant('W3-head-test-hoisted-before-lock', ['C17', 'C05'], [
+    (S, "        let incarnation = tx_version.incarnation;\n        let mut tx_state = self.tx_states[txid].lock();\n        let tx_result = self.tx_results[txid].lock();\n        if tx_state.status != TransactionStatus::Validating {", "        let incarnation = tx_version.incarnation;\n        let at_finality_head = txid == self.scheduler_ctx.finality_idx();\n        let mut tx_state = self.tx_states[txid].lock();\n        let tx_result = self.tx_results[txid].lock();\n        if tx_state.status != TransactionStatus::Validating {"),
+    (S, "        drop(tx_state);\n        if txid == self.scheduler_ctx.finality_idx() {\n            self.finality_wait.notify();\n        }\n        None", "        drop(tx_state);\n        if at_finality_head {\n            self.finality_wait.notify();\n        }\n        None"),
+], ['|W3|'])
+mutant('V1-vanished-writer-arm-dropped', ['C01'], [
+    (S, "                    } else {\n                        conflict = true;\n                    }\n                } else if !matches!(version, ReadVersion::Storage) {\n                    conflict = true;\n                }\n            } else if", "                    } else {\n                        conflict = true;\n                    }\n                }\n            } else if"),
+], ['|V1|'])
